@@ -1,0 +1,98 @@
+// +build verif
+
+// Additions for the external verification harness (/verif, property C19, second
+// part: the trie-sync goroutine layer - trieFetcher / runTrieSync /
+// trieSync.loop / commit / Wait / Cancel - run to completion over a
+// fault-injecting database).  A Downloader assembled without chain, chain
+// database, event mux and queue (only the fields the trie fetcher reads, same
+// values as New; the cancel channel is created as synchronise does), and the
+// launch of one trie sync the way syncState / commonSyncTrie do it, with the
+// backing database given instead of looked up through lightchain.TrieBackingDb.
+// Compiled only with -tags verif; every method forwards to the unexported
+// original or reads a channel; nothing here changes the behaviour of existing
+// code.
+
+package downloader
+
+import (
+	"github.com/youchainhq/go-youchain/common"
+	"github.com/youchainhq/go-youchain/core/state"
+	"github.com/youchainhq/go-youchain/core/types"
+	"github.com/youchainhq/go-youchain/trie"
+	"github.com/youchainhq/go-youchain/youdb"
+)
+
+var (
+	VerifErrCancelTrieFetch = errCancelTrieFetch
+	VerifErrCanceledSync    = errCanceled
+)
+
+// VerifTrieDL is a Downloader on which only trie syncs are run.
+type VerifTrieDL struct{ d *Downloader }
+
+// VerifNewTrieDL builds a Downloader like New does, minus chain, databases,
+// event mux, queue and the qosTuner goroutine; the trieFetcher goroutine is
+// started as in New.  drop is the peerDropFn.
+func VerifNewTrieDL(drop func(id string)) *VerifTrieDL {
+	d := &Downloader{
+		peers:         newPeerSet(),
+		dropPeer:      drop,
+		quitCh:        make(chan struct{}),
+		rttEstimate:   uint64(rttMaxEstimate),
+		rttConfidence: uint64(1000000),
+		trieCh:        make(chan dataPack),
+		trieSyncStart: make(chan *trieSync),
+		trackTrieReq:  make(chan *trieReq),
+		cancelCh:      make(chan struct{}), // synchronise: d.cancelCh = make(chan struct{})
+	}
+	go d.trieFetcher()
+	return &VerifTrieDL{d}
+}
+
+// RegisterPeer is Downloader.RegisterPeer.
+func (v *VerifTrieDL) RegisterPeer(id string, p Peer) error { return v.d.RegisterPeer(id, p) }
+
+// DeliverNodeData is Downloader.DeliverNodeData (what the protocol handler calls
+// for a NodeData message).
+func (v *VerifTrieDL) DeliverNodeData(id string, data [][]byte) error {
+	return v.d.DeliverNodeData(id, data)
+}
+
+// CancelCycle is Downloader.cancel(): the running sync cycle's cancel channel
+// is closed.
+func (v *VerifTrieDL) CancelCycle() { v.d.cancel() }
+
+// Terminate is Downloader.Terminate(): the trieFetcher goroutine ends.
+func (v *VerifTrieDL) Terminate() { v.d.Terminate() }
+
+// VerifTrieTask is one launched trieSync.
+type VerifTrieTask struct{ s *trieSync }
+
+// SyncTrie is syncState (kind == KindState: state.NewStateSync) or
+// commonSyncTrie (any other kind: trie.NewSync) on the given backing database:
+// newTrieSync + launchTrieSync.
+func (v *VerifTrieDL) SyncTrie(kind types.TrieKind, root common.Hash, db youdb.Database) *VerifTrieTask {
+	var sched *trie.Sync
+	if kind == types.KindState {
+		sched = state.NewStateSync(root, db)
+	} else {
+		sched = trie.NewSync(root, db, nil)
+	}
+	return &VerifTrieTask{v.d.launchTrieSync(newTrieSync(v.d, kind, db, sched))}
+}
+
+// Wait is trieSync.Wait.
+func (t *VerifTrieTask) Wait() error { return t.s.Wait() }
+
+// Cancel is trieSync.Cancel.
+func (t *VerifTrieTask) Cancel() error { return t.s.Cancel() }
+
+// CancelRequested reads whether the sync's cancel channel has been closed.
+func (t *VerifTrieTask) CancelRequested() bool {
+	select {
+	case <-t.s.cancel:
+		return true
+	default:
+		return false
+	}
+}
